@@ -21,6 +21,15 @@ class Schema:
     def __init__(self, design):
         self.d = design
         self.types = {t["name"]: t for t in design.get("types", [])}
+        # attributes re-declared without a type under Reference(Base) inherit type and validations of the base attribute
+        for t in design.get("types", []):
+            base = self.types.get(t.get("reference") or "")
+            if not base:
+                continue
+            bfields = {f["name"]: f["att"] for f in ((base.get("att") or {}).get("type") or {}).get("object") or []}
+            for f in ((t.get("att") or {}).get("type") or {}).get("object") or []:
+                if not f["att"].get("type") and f["name"] in bfields:
+                    f["att"] = dict(bfields[f["name"]], **{k: v for k, v in f["att"].items() if k != "type"})
 
     def resolve(self, att):
         seen = 0
